@@ -43,6 +43,14 @@ def rightOpen : Expr → Bool
   | bin _ _ r => rightOpen r
   | _ => false
 
+/-- the expression's last tokens are a Luau type (`… :: T`): a following `<` would be read
+as the start of the type's generic arguments -/
+def endsWithType : Expr → Bool
+  | assert _ => true
+  | un _ e => endsWithType e
+  | bin _ _ r => endsWithType r
+  | _ => false
+
 /-- syntactic position of a sub-expression -/
 inductive Pos
   | top                      -- delimited on both sides (statement level, inside parentheses, …)
@@ -59,7 +67,7 @@ def okAt : Pos → Expr → Bool
   | .unOperand _, bin op2 _ _ => decide (op2.prec > unPrec)
   | .unOperand _, _ => true
   | .binL op, c =>
-      !rightOpen c &&
+      !rightOpen c && !(op == .lt && endsWithType c) &&
       (match c with
        | bin opl _ _ => if op.rassoc then decide (opl.prec > op.prec) else decide (opl.prec ≥ op.prec)
        | un _ _ => decide (op.prec ≤ unPrec)
